@@ -353,6 +353,23 @@ Theorem C01_peewee_row_decode : forall r,
 Proof. exact peewee_row_decode. Qed.
 Print Assumptions C01_peewee_row_decode.
 
+(* one INSERT of the model, then the real decode of the cells of the row it wrote *)
+Theorem C01_sqlite_insert_reads_back : forall c b e c' i,
+  sql_insert_event c b e = Ok (c', i) ->
+  ms_aligned (ts e) -> 0 <= ts e -> 0 <= dur e -> ts e + dur e < 2 ^ 52 ->
+  exists r, In r (sq_events c') /\ er_id r = i /\ sqlite_dec (er_start r, er_end r) = Ok (ts e, dur e).
+Proof. exact sqlite_insert_reads_back. Qed.
+Print Assumptions C01_sqlite_insert_reads_back.
+
+Theorem C01_peewee_insert_reads_back : forall c k e,
+  ms_aligned (ts e) -> 0 <= ts e <= y2100 -> Z.abs (dur e) < 2 ^ 33 * 1000000 ->
+  exists r, In r (pw_events (fst (pw_insert_event c k e))) /\ pe_id r = snd (pw_insert_event c k e) /\
+            pe_bucket r = k /\ pe_data r = data e /\
+            peewee_ts_dec (peewee_ts_enc (pe_ts r)) = Ok (ts e) /\
+            bind (peewee_dur_enc (pe_dur r)) peewee_dur_dec = Ok (dur e).
+Proof. exact peewee_insert_reads_back. Qed.
+Print Assumptions C01_peewee_insert_reads_back.
+
 (* ===================================================================================== *)
 (* (3) ownership (memory back end; heap model).  The full list is Props/C01own.v. *)
 
